@@ -13,8 +13,12 @@ import "bytes"
 // reader of C02, so the spliced or re-encoded chunks are also checked for
 // well-formedness.
 
+// (fields in alphabetical order: MergeRowGroups derives a schema whose columns
+// are sorted by name, and WriteRowGroup rejects a row group whose column order
+// differs from the writer's with ErrRowGroupSchemaMismatch)
 type verifRecJ struct {
 	ID   int64  `parquet:"id"`
+	Kind string `parquet:"kind,dict"`
 	Name string `parquet:"name,plain"`
 }
 
@@ -36,8 +40,8 @@ func verifFileOfJ(rows []verifRecJ, opts ...WriterOption) (*File, bool) {
 func VerifH_C11_writeRowGroupEquivalence() {
 	vUnwind(1 << 16)
 	symName := vString("name", 1)
-	a := []verifRecJ{{ID: 10, Name: "a"}, {ID: 11, Name: symName}}
-	b := []verifRecJ{{ID: 20, Name: "b"}, {ID: 21, Name: "c"}, {ID: 22, Name: "a"}}
+	a := []verifRecJ{{ID: 10, Name: "a", Kind: "x"}, {ID: 11, Name: symName, Kind: "yy"}}
+	b := []verifRecJ{{ID: 20, Name: "b", Kind: "yy"}, {ID: 21, Name: "c", Kind: "x"}, {ID: 22, Name: "a", Kind: "zzz"}}
 	sorted := SortingWriterConfig(verifSortByID)
 
 	var src RowGroup
@@ -102,7 +106,7 @@ func VerifH_C11_writeRowGroupEquivalence() {
 	w := NewGenericWriter[verifRecJ](dst, opts...)
 	var all []verifRecJ
 	if vChoose("pendingRows", 0, 1) == 1 {
-		pending := []verifRecJ{{ID: 1, Name: "p"}, {ID: 2, Name: "q"}}
+		pending := []verifRecJ{{ID: 1, Name: "p", Kind: "k"}, {ID: 2, Name: "q", Kind: "k"}}
 		if _, err := w.Write(pending); err != nil {
 			vAssert(false, "pending rows are accepted")
 			return
@@ -130,17 +134,17 @@ func VerifH_C11_writeRowGroupEquivalence() {
 	if !ok {
 		return
 	}
-	vAssert(len(cols) == 2 && len(cols[0].ints) == len(all) && len(cols[1].strs) == len(all), "destination holds every row once")
-	if len(cols) != 2 || len(cols[0].ints) != len(all) || len(cols[1].strs) != len(all) {
+	vAssert(len(cols) == 3 && len(cols[0].ints) == len(all) && len(cols[1].strs) == len(all) && len(cols[2].strs) == len(all), "destination holds every row once")
+	if len(cols) != 3 || len(cols[0].ints) != len(all) || len(cols[1].strs) != len(all) || len(cols[2].strs) != len(all) {
 		return
 	}
 	for i := range all {
-		vAssert(cols[0].ints[i] == all[i].ID && vBytesEq(cols[1].strs[i], []byte(all[i].Name)), "rows arrive in order, pending rows first")
+		vAssert(cols[0].ints[i] == all[i].ID && vBytesEq(cols[1].strs[i], []byte(all[i].Kind)) && vBytesEq(cols[2].strs[i], []byte(all[i].Name)), "rows arrive in order, pending rows first")
 	}
 	if wantV1 {
-		vAssert(cols[0].v2Pages == 0 && cols[1].v2Pages == 0, "the destination's data page version is honoured")
+		vAssert(cols[0].v2Pages == 0 && cols[1].v2Pages == 0 && cols[2].v2Pages == 0, "the destination's data page version is honoured")
 	} else {
-		vAssert(cols[0].v1Pages == 0 && cols[1].v1Pages == 0, "the destination's data page version is honoured")
+		vAssert(cols[0].v1Pages == 0 && cols[1].v1Pages == 0 && cols[2].v1Pages == 0, "the destination's data page version is honoured")
 	}
 	if maxRows > 0 {
 		f, err := OpenFile(bytes.NewReader(data), int64(len(data)))
